@@ -594,9 +594,17 @@ package keeper
 //@ func (k msgServer) CreateVestingPool(goCtx, msg) (r0, r1)
 //@   requires msg != nil && poolsSane(msg.Owner)
 //@   prop C20
+//@ // C07: move-available moves exactly what the bank reports as locked on the sender, of every denomination
 //@ func (k msgServer) MoveAvailableVesting(goCtx, msg) (r0, r1)
-//@   requires msg != nil && cvaSane(fromBech32(msg.FromAddress)) && timeOK($blockTime)
-//@   prop C20
+//@   requires msg != nil
+//@   panic_requires cvaSane(fromBech32(msg.FromAddress)) && timeOK($blockTime)
+//@   modifies $accTag, $accNum, $accSeq, $accPub, $accOV, $accDF, $accDV, $accStart, $accEnd, $accNextNum, $evCount, $evTag, $evRef, $bal
+//@   modifies $trFound, $trGenesis, $trFromGenesisPool, $trFromGenesisAccount
+//@   ensures [moves-all-locked] r1 == nil && fromBech32(msg.FromAddress) != fromBech32(msg.ToAddress) ==>
+//@       $accOV[fromBech32(msg.ToAddress)] == old(bankLocked(fromBech32(msg.FromAddress)))
+//@   prop C07 C20
+//@ loop msgServer.MoveAvailableVesting#1
+//@   invariant true
 //@ // C07: move-by-denominations moves, of every selected denomination, exactly what the bank reports as locked on the sender at
 //@ // that moment (bankLocked: x/bank's LockedCoins as a function of the account view and the block time), and nothing of any
 //@ // other denomination; the split itself is splitVestingCoins
@@ -623,9 +631,16 @@ package keeper
 //@   requires msg != nil && poolsSane(msg.Owner) && $pLen[msg.Owner] <= 1000000 && poolTimesSane(msg.Owner) && vestingTypesSane()
 //@   requires timeOK($blockTime) && $blockTime >= -1000000000000000000 && $blockTime <= 1000000000000000000 && (!msg.Amount.IsNil() ==> abs(msg.Amount) <= 1e60)
 //@   prop C20
+//@ // C07: split moves exactly the requested coins
 //@ func (k msgServer) SplitVesting(goCtx, msg) (r0, r1)
-//@   requires msg != nil && cvaSane(fromBech32(msg.FromAddress)) && timeOK($blockTime)
-//@   prop C20
+//@   requires msg != nil
+//@   panic_requires cvaSane(fromBech32(msg.FromAddress)) && timeOK($blockTime)
+//@   modifies $accTag, $accNum, $accSeq, $accPub, $accOV, $accDF, $accDV, $accStart, $accEnd, $accNextNum, $evCount, $evTag, $evRef, $bal
+//@   modifies $trFound, $trGenesis, $trFromGenesisPool, $trFromGenesisAccount
+//@   ensures [moves-requested] r1 == nil && fromBech32(msg.FromAddress) != fromBech32(msg.ToAddress) ==> $accOV[fromBech32(msg.ToAddress)] == old(msg.Amount)
+//@   prop C07 C20
+//@ loop msgServer.SplitVesting#1
+//@   invariant true
 //@ func (k msgServer) WithdrawAllAvailable(goCtx, msg) (r0, r1)
 //@   requires msg != nil && poolsSane(msg.Owner) && $pLen[msg.Owner] <= 1000000
 //@   prop C20
